@@ -378,8 +378,8 @@ class List(list, base.Symbolic, pg_typing.CustomTyping):
 
   def seal(self, sealed: bool = True) -> 'List':
     """Seal or unseal current object from further modification."""
-    if self.is_sealed == sealed:
-      return self
+    # NOTE: descendants are always visited: a child may be in another state than
+    # its parent (e.g. it was sealed before it was inserted).
     for elem in self.sym_values():
       if isinstance(elem, base.Symbolic):
         elem.seal(sealed)
